@@ -126,8 +126,7 @@ static void run(const bool sel, const int ipgs)
   vf_assume(sk >= 1.e-3);
   double y0[NACT];
   for (int i = 0; i < NACT; i++) y0[i] = boxed(1.e6);
-  double rho = boxed(1.);
-  vf_assume(rho > -0.999 && rho < 0.999);
+  double rho = boxed(16.) / 16.5; // correlation, |rho| <= 0.97
   // bounds are honoured once the decay of the burn-in stage is over (or absent)
   vf_assume(!decay || iter > nburn);
   const int icase = ivar + NVAR * ipgs;
